@@ -313,8 +313,9 @@ class SimPool:
             # pool used by a process-actor: its tasks become thread-actors of the
             # same simulated process inside the running scheduler
             caller = outer.current_actor()
-            SimPool.nested_n += 1
-            kids = [outer.spawn_live(f"{caller.name}.p{SimPool.nested_n}t{k}", worker, caller.pid)
+            # numbered per scheduler (not per process), so that a recorded schedule replays by name
+            outer.pool_count = getattr(outer, "pool_count", 0) + 1
+            kids = [outer.spawn_live(f"{caller.name}.p{outer.pool_count}t{k}", worker, caller.pid)
                     for k in range(n)]
             outer.block_on(_Join(kids))
             for k in kids:
